@@ -82,6 +82,8 @@ fn scenario<C: MlsConfig>(rng: &mut Rng, mk: Mk<C>, out: &mut Out, qa_mem: &mut 
     let mut written: BTreeMap<usize, Vec<(String, Vec<u8>)>> = BTreeMap::new();
     // unused late messages per epoch from P (and from Q for the sender-leaf cases)
     let mut pool: BTreeMap<u64, Vec<MlsMessage>> = BTreeMap::new();
+    // late messages a subject accepted: (subject, message, epoch)
+    let mut accepted_lates: Vec<(usize, MlsMessage, u64)> = vec![];
     let mut q_pool: Vec<(u64, MlsMessage)> = vec![];
     let mut q_state = "member"; // member | removed | replaced | reidentified
     let steps = rng.range(8, 22);
@@ -269,6 +271,7 @@ fn scenario<C: MlsConfig>(rng: &mut Rng, mk: Mk<C>, out: &mut Out, qa_mem: &mut 
                 if w.members[i].group.is_none() {
                     continue;
                 }
+                let m_copy = m.clone();
                 let (r, _) = w.with_group(i, |g| g.process_incoming_message(m));
                 out.lates += 1;
                 let v = match &r {
@@ -289,6 +292,23 @@ fn scenario<C: MlsConfig>(rng: &mut Rng, mk: Mk<C>, out: &mut Out, qa_mem: &mut 
                 }
                 verdicts.push(v);
                 out.cover.insert(format!("late:age={}:{}", age.min(6), v));
+                if v == "some" {
+                    accepted_lates.push((i, m_copy, e));
+                }
+            }
+            // C05: a late message that was accepted is never accepted again, whatever other epochs were touched in between
+            // (the ratchet state of a prior epoch loaded from storage must stay the one that consumed the key)
+            if !accepted_lates.is_empty() {
+                let k = rng.below(accepted_lates.len() as u64) as usize;
+                let (i, m, e) = accepted_lates[k].clone();
+                if w.members[i].group.is_some() {
+                    let (r, _) = w.with_group(i, |g| g.process_incoming_message(m));
+                    out.lates += 1;
+                    if r.ok() {
+                        out.fails.push(("C05".into(), format!("subject {i} accepted the late application message of epoch {e} a second time (now at epoch {now})")));
+                    }
+                    out.cover.insert(format!("late-replay:{}", if r.ok() { "accepted" } else { "rejected" }));
+                }
             }
             // the twin (never written, never reloaded) keeps every epoch it entered: no oracle on it here
         }
@@ -361,7 +381,7 @@ pub fn run(o: &Opts) -> i32 {
     println!("crashes {}", out.crashes);
     println!("cover {}", out.cover.iter().cloned().collect::<Vec<_>>().join(";"));
     let focus = o.str("focus", "");
-    let rel: Vec<&(String, String)> = out.fails.iter().filter(|(p, _)| focus.is_empty() || *p == focus).collect();
+    let rel: Vec<&(String, String)> = out.fails.iter().filter(|(p, _)| focus.is_empty() || focus.split(',').any(|f| f == p)).collect();
     println!("oracle_failures {}", rel.len());
     let stem = "c06all";
     std::fs::write(format!("{dir}/{stem}.failures"), rel.iter().map(|(p, w)| format!("{p}: {w}")).collect::<Vec<_>>().join("\n")).unwrap();
